@@ -11,6 +11,19 @@ claimed = {
    technique="deterministic simulation: seeded clock-fault schedules vs timer reference model"),
 }
 
+claimed["C03"] = dict(
+   level="exploration",
+   text="Seeded search over interruption points: every solve of a generated history is cut by the simulated clock (MaxTime at a chosen clock read) and/or by max_iter at a chosen iteration, and re-solved after the cut; the report (obj_val, obj_val_dual, r_prim, r_dual, iterations, Almost* justification, NaN objectives and certificate sign for infeasible statuses, vector lengths) is recomputed from the returned x,s,z and the user's data by independent arithmetic. Only the interrupted / clock-dependent paths are claimed; reports on uninterrupted runs are a pure function of the input.",
+   design_ref="DESIGN.md §4 C03",
+   note="Agreement to rounding = 2^-36 of the sum of absolute values of the terms. Almost*Infeasible tolerances are scale dependent and only checked for sign/NaN. Input space sampled.",
+   technique="deterministic simulation: clock/iteration-budget cuts at every boundary + independent recomputation oracle")
+claimed["C20"] = dict(
+   level="exploration",
+   text="The same seeded history is executed once per print target under a clock that is a pure function of the read index: buffer (reference), stream with seeded short writes and EINTR, file, sink, and a stream with a hard fault (EPIPE/ENOSPC/other/Ok(0)) at a chosen call. Decides: verbose off writes nothing anywhere; stream = file = buffer bytes exactly; after a hard sink error the accepted bytes are a prefix of the fault-free output; and the parsed log (iteration column, last row, footer status/time, header dimensions, cone lines, presolve line, settings) agrees with the returned solution and with a model of the internal problem, on paths incl. MaxTime/MaxIterations/Almost*.",
+   design_ref="DESIGN.md §4 C20, §2.3",
+   note="Known finding F5 (roll-back on insufficient progress prints the discarded iterate) is listed in known_findings.txt and keyed to that call site. Stdout capture through a child process is not part of the quick tier.",
+   technique="deterministic simulation: sink fault injection (short write, EINTR, hard error) with byte-exact reference output")
+
 na = {
  "C01": "validity of a Solved verdict is a pure function of (data, settings); no clock, I/O, schedule or fault participates, so a simulator has nothing to control",
  "C02": "validity of infeasibility certificates is a pure function of the input; the (tau,kappa) observer it needs is instrumentation, not a nondeterminism seam",
